@@ -21,6 +21,7 @@ RULE = ("Hypothesis draws a hereditarily satisfiable SchemaSpec (depth<=3, all l
 ASSUMPTIONS = [
     "usable-result clause is asserted for satisfiable schemas only (an unsatisfiable original stays unsatisfiable)",
     "the open C01 finding (empty alphabet cannot be generated from) is not re-reported here",
+    "a value containing NaN pins a float that equals nothing (NaN != NaN); the usable-result and idempotence clauses are not asserted for it",
 ]
 BUDGET = {"quick": (1500, 4), "thorough": (25000, 16)}
 
@@ -134,7 +135,9 @@ def check(case, ctx):
     ctx.label("substituted")
 
     # usable: can be generated from, and accepts what it generates
-    if not _empty_alphabet(spec):
+    if substgen.has_nan(case["value"]):
+        ctx.label("nan-pinned(usable clause not asserted)")   # NaN != NaN: see ASSUMPTIONS
+    elif not _empty_alphabet(spec):
         try:
             with rng.scripted(case["rng"]):
                 g = fake(R)
